@@ -148,34 +148,41 @@ def key_function_sites(ctx, only=None):
                 )
     if only is None:
         # positive inventory: the generators' key fragments
-        gen = A.entry_generator(repo)
-        ctx.touch(gen)
-        from .c03 import entrygen
+        def _skel(ctx_):
+            n_ = 0
+            gen = A.entry_generator(repo)
+            ctx.touch(gen)
+            from .c03 import entrygen
 
-        lookup_list = entrygen(ctx).lookup
-        for e in emissions(gen.node):
-            try:
-                sk = from_fstring(e.arg)
-            except AnalysisError:
-                continue
-            for h in sk.holes.values():
-                pass
-            txt = sk.text
-            looks = [h for h in sk.holes.values() if "lookup_for" in h or sel.name in h]
-            is_key_fragment = e.sink == lookup_list or "TARGS.append" in txt
-            if not is_key_fragment or not sk.holes:
-                continue
-            # constant fragments such as "*TARGS" carry no key function
-            if not any(c.isalpha() for c in txt.replace("TARGS", "")) and not looks:
-                continue
-            n += 1
-            ctx.ob(
-                f"{gen.key}:key-fragment:{short(e.arg, 40)}",
-                gen.loc(e.node),
-                "a key fragment of the generated entry point applies the per-position selector",
-                bool(looks),
-                f"`{short(e.arg, 60)}` builds a key element without the per-position selector: type-valued arguments at that position are keyed by their metaclass",
-            )
+            lookup_list = entrygen(ctx).lookup
+            for e in emissions(gen.node):
+                try:
+                    sk = from_fstring(e.arg)
+                except AnalysisError:
+                    continue
+                for h in sk.holes.values():
+                    pass
+                txt = sk.text
+                looks = [h for h in sk.holes.values() if "lookup_for" in h or sel.name in h]
+                is_key_fragment = e.sink == lookup_list or "TARGS.append" in txt
+                if not is_key_fragment or not sk.holes:
+                    continue
+                # constant fragments such as "*TARGS" carry no key function
+                if not any(c.isalpha() for c in txt.replace("TARGS", "")) and not looks:
+                    continue
+                n_ += 1
+                ctx.ob(
+                    f"{gen.key}:key-fragment:{short(e.arg, 40)}",
+                    gen.loc(e.node),
+                    "a key fragment of the generated entry point applies the per-position selector",
+                    bool(looks),
+                    f"`{short(e.arg, 60)}` builds a key element without the per-position selector: type-valued arguments at that position are keyed by their metaclass",
+                )
+
+        from .c03 import _with_fallback
+
+        _with_fallback(ctx, ("key-functions",), _skel)
+        n += 1
         from .rewriter import law_key_functions
 
         law_key_functions(ctx)
